@@ -265,6 +265,12 @@ private:
 
           static_assert(std::is_same_v<decltype(stopToken), ST>);
 
+          // Once the stop callback is registered, a stop request on another
+          // thread may complete our receiver with set_done(), which is
+          // entitled to destroy this operation; nothing of *this may be
+          // touched after that point, so keep our own reference to the stream.
+          auto& strm = stream_;
+
           UNIFEX_TRY {
             stream_.nextOp_.construct_with([&] {
               return unifex::connect(
@@ -276,7 +282,7 @@ private:
             UNIFEX_TRY {
               stopCallback_.construct(
                   std::move(stopToken), cancel_next_callback{stream_});
-              unifex::start(stream_.nextOp_.get());
+              unifex::start(strm.nextOp_.get());
             }
             UNIFEX_CATCH(...) {
               stream_.nextReceiver_ = nullptr;
